@@ -18,6 +18,8 @@ struct LOp {
   res: Option<String>,
   fut: Option<String>,
   polled_pending: bool,
+  /// event index of the first `poll` that returned pending
+  first_pending: Option<usize>,
   cancelled: Option<usize>,
   cancel_woken: bool,
   /// handle was locally closed (own `close` returned ok) when the op was invoked
@@ -26,11 +28,17 @@ struct LOp {
   all_receivers_gone_at_call: bool,
   all_senders_gone_at_call: bool,
   isolated: bool,
+  /// flavour token for signatures: constructor flavour adjusted to the handle's CURRENT kind
+  sfl: String,
+  /// "" | "-after-conversion" | "-after-clone-of-closed-handle": the history already contains a
+  /// closed handle that was converted / cloned (known defect families whose consequences are not re-reported plainly)
+  taint: &'static str,
 }
 
 #[derive(Clone, Debug, Default)]
 struct HState {
   side: char,
+  is_async: bool,
   closed: bool,
   dropped: bool,
   converted_after_close: bool,
@@ -147,8 +155,17 @@ pub fn check(case: &Case, res: &RunResult, status: &str) -> Vec<(String, String)
 
   // ------------------------------------------------------------ pass 1: logical ops + handle states
   let mut hs: BTreeMap<String, HState> = BTreeMap::new();
-  hs.insert("s0".into(), HState { side: 's', ..Default::default() });
-  hs.insert("r0".into(), HState { side: 'r', ..Default::default() });
+  let base_fl = fl.trim_end_matches("_async").to_string();
+  let ctor_async = fl.ends_with("_async");
+  hs.insert("s0".into(), HState { side: 's', is_async: ctor_async, ..Default::default() });
+  hs.insert("r0".into(), HState { side: 'r', is_async: ctor_async, ..Default::default() });
+  let mut taint: &'static str = "";
+  let sig_fl = |h: Option<&HState>| -> String {
+    match h {
+      Some(h) if !oneshot => if h.is_async { format!("{}_async", base_fl) } else { base_fl.clone() },
+      _ => fl.to_string(),
+    }
+  };
   let mut ops: Vec<LOp> = Vec::new();
   let mut pending: BTreeMap<usize, usize> = BTreeMap::new(); // tid -> index into ops (direct op in flight)
   let mut raw_pending: BTreeMap<usize, (usize, crate::prog::Op)> = BTreeMap::new();
@@ -191,6 +208,7 @@ pub fn check(case: &Case, res: &RunResult, status: &str) -> Vec<(String, String)
             res: None,
             fut: if op.name() == "fut" { Some(op.arg(1).to_string()) } else { None },
             polled_pending: false,
+            first_pending: None,
             cancelled: None,
             cancel_woken: false,
             closed_at_call: st.closed,
@@ -198,6 +216,8 @@ pub fn check(case: &Case, res: &RunResult, status: &str) -> Vec<(String, String)
             all_receivers_gone_at_call: gone(&hs, 'r'),
             all_senders_gone_at_call: gone(&hs, 's'),
             isolated: inflight.iter().all(|t| t == tid),
+            sfl: sig_fl(hs.get(op.h())),
+            taint,
           };
           ops.push(lop);
           if direct {
@@ -244,6 +264,7 @@ pub fn check(case: &Case, res: &RunResult, status: &str) -> Vec<(String, String)
                 futs.remove(op.arg(1));
               } else if r == "pending" {
                 ops[k].polled_pending = true;
+                ops[k].first_pending.get_or_insert(i);
               }
             }
           }
@@ -261,20 +282,27 @@ pub fn check(case: &Case, res: &RunResult, status: &str) -> Vec<(String, String)
             if let Some(h) = hs.get_mut(op.arg(1)) {
               if ok {
                 if h.closed {
-                  fire(format!("{}:close:second-close-ok", fl), format!("close {} returned ok twice (event {})", op.arg(1), i));
+                  let sf = if h.is_async { format!("{}_async", base_fl) } else { base_fl.clone() };
+                  let suffix = if h.converted_after_close { "-after-conversion" } else { "" };
+                  fire(format!("{}:close:second-close-ok{}", if oneshot { fl.to_string() } else { sf }, suffix), format!("close {} returned ok twice (event {})", op.arg(1), i));
                 }
                 h.closed = true;
               }
             }
           }
           "clone" if ok => {
-            let side = hs.get(op.arg(1)).map(|h| h.side).unwrap_or('s');
-            hs.insert(op.arg(2).to_string(), HState { side, ..Default::default() });
+            let (side, is_async, was_closed) = hs.get(op.arg(1)).map(|h| (h.side, h.is_async, h.closed)).unwrap_or(('s', false, false));
+            if was_closed && taint.is_empty() {
+              taint = "-after-clone-of-closed-handle";
+            }
+            hs.insert(op.arg(2).to_string(), HState { side, is_async, ..Default::default() });
           }
           "to_async" | "to_sync" if ok => {
             if let Some(h) = hs.get_mut(op.arg(1)) {
+              h.is_async = op.name() == "to_async";
               if h.closed {
                 h.converted_after_close = true;
+                taint = "-after-conversion";
               }
             }
           }
@@ -310,7 +338,7 @@ pub fn check(case: &Case, res: &RunResult, status: &str) -> Vec<(String, String)
         let (s, b, f, part_ok) = send_outcome(&o.form, &o.vals, r);
         if !part_ok {
           fire(
-            format!("{}:{}:error-does-not-return-the-unsent-input", fl, o.form),
+            format!("{}:{}:error-does-not-return-the-unsent-input", o.sfl, o.form),
             format!("{} {:?} => {} does not partition its input (event {})", o.form, o.vals, r, ri),
           );
         }
@@ -338,24 +366,24 @@ pub fn check(case: &Case, res: &RunResult, status: &str) -> Vec<(String, String)
     let k0 = ks[0];
     let at = ops[k0].ret.unwrap_or(0);
     if !offered.contains_key(v) {
-      fire(format!("{}:{}:value-never-sent", fl, ops[k0].form), format!("received value {} that no send offered (event {})", v, at));
+      fire(format!("{}:{}:value-never-sent", ops[k0].sfl, ops[k0].form), format!("received value {} that no send offered (event {})", v, at));
       continue;
     }
     if returned.contains(v) {
       let sf = &ops[offered[v]].form;
       fire(
-        format!("{}:{}:value-returned-in-error-and-received", fl, sf),
+        format!("{}:{}:value-returned-in-error-and-received", ops[offered[v]].sfl, sf),
         format!("value {} was handed back by {} and also received (event {})", v, sf, at),
       );
     }
     if !spmc && ks.len() > 1 {
-      fire(format!("{}:{}:value-received-twice", fl, ops[ks[1]].form), format!("value {} received {} times", v, ks.len()));
+      fire(format!("{}:{}:value-received-twice", ops[ks[1]].sfl, ops[ks[1]].form), format!("value {} received {} times", v, ks.len()));
     }
     if spmc {
       let mut seen: BTreeSet<&str> = BTreeSet::new();
       for k in ks {
         if !seen.insert(ops[*k].handle.as_str()) {
-          fire(format!("{}:{}:value-received-twice-by-one-receiver", fl, ops[*k].form), format!("value {} twice on {}", v, ops[*k].handle));
+          fire(format!("{}:{}:value-received-twice-by-one-receiver", ops[*k].sfl, ops[*k].form), format!("value {} twice on {}", v, ops[*k].handle));
         }
       }
     }
@@ -366,7 +394,11 @@ pub fn check(case: &Case, res: &RunResult, status: &str) -> Vec<(String, String)
     // producer order: per sender handle, offered values in program order
     let mut prod_pos: BTreeMap<u32, (String, usize)> = BTreeMap::new();
     let mut counters: BTreeMap<String, usize> = BTreeMap::new();
-    for o in ops.iter().filter(|o| is_send(&o.form)) {
+    // program order of a producer = order in which its sends take effect: invocation order for direct
+    // calls, completion order for manually polled futures (creation does nothing)
+    let mut sends: Vec<&LOp> = ops.iter().filter(|o| is_send(&o.form)).collect();
+    sends.sort_by_key(|o| if o.fut.is_some() { o.ret.unwrap_or(usize::MAX) } else { o.call });
+    for o in sends {
       for v in &o.vals {
         // broadcast contiguity is judged on the values that were actually sent
         if spmc && !sent_ok.contains_key(v) {
@@ -380,7 +412,15 @@ pub fn check(case: &Case, res: &RunResult, status: &str) -> Vec<(String, String)
     let mut per_recv: BTreeMap<String, Vec<(u32, usize)>> = BTreeMap::new();
     let mut rops: Vec<&LOp> = ops.iter().filter(|o| is_recv(&o.form) && o.ret.is_some()).collect();
     rops.sort_by_key(|o| o.ret.unwrap());
+    // a manually polled receive future that overlaps other receives on the same handle has no defined
+    // position in that handle's program order: leave it out of the order check
+    let overlapped = |o: &LOp| {
+      o.fut.is_some() && ops.iter().any(|p| is_recv(&p.form) && p.handle == o.handle && p.call > o.call && p.call < o.ret.unwrap_or(usize::MAX))
+    };
     for o in rops {
+      if overlapped(o) {
+        continue;
+      }
       for v in received_values(o.res.as_ref().unwrap()) {
         per_recv.entry(o.handle.clone()).or_default().push((v, o.ret.unwrap()));
       }
@@ -432,7 +472,25 @@ pub fn check(case: &Case, res: &RunResult, status: &str) -> Vec<(String, String)
   }
 
   // C04 per-op checks
+  let first_closed_accept: Option<usize> = ops
+    .iter()
+    .filter(|o| o.closed_at_call && (is_send(&o.form) || is_recv(&o.form)))
+    .filter(|o| match &o.res {
+      Some(r) => !(r.starts_with("err:closed") || r.starts_with("err:disconnected") || r == "unsupported" || r.starts_with("invalid")),
+      None => true,
+    })
+    .map(|o| o.call)
+    .min();
   {
+    let tn = |o: &LOp| -> &'static str {
+      if !o.taint.is_empty() {
+        o.taint
+      } else if first_closed_accept.map_or(false, |c| c < o.ret.unwrap_or(usize::MAX)) {
+        "-after-closed-handle-accepted"
+      } else {
+        ""
+      }
+    };
     let mut disc_seen: BTreeMap<String, usize> = BTreeMap::new();
     let mut by_ret: Vec<&LOp> = ops.iter().filter(|o| o.ret.is_some()).collect();
     by_ret.sort_by_key(|o| o.ret.unwrap());
@@ -448,7 +506,7 @@ pub fn check(case: &Case, res: &RunResult, status: &str) -> Vec<(String, String)
         if !r.starts_with(want) {
           let suffix = if o.converted_after_close { "-after-conversion" } else { "" };
           fire(
-            format!("{}:{}:closed-handle-accepted{}", fl, o.form, suffix),
+            format!("{}:{}:closed-handle-accepted{}", o.sfl, o.form, suffix),
             format!("{} on {} after its close() returned {} (event {})", o.form, o.handle, r, at),
           );
         }
@@ -456,20 +514,20 @@ pub fn check(case: &Case, res: &RunResult, status: &str) -> Vec<(String, String)
       }
       if is_send(&o.form) && o.all_receivers_gone_at_call && !spmc && !zero && !r.starts_with("err:closed") {
         fire(
-          format!("{}:{}:accepted-after-all-receivers-gone", fl, o.form),
+          format!("{}:{}:accepted-after-all-receivers-gone{}", o.sfl, o.form, tn(o)),
           format!("{} on {} returned {} although every receiver was closed/dropped (event {})", o.form, o.handle, r, at),
         );
       }
       if is_recv(&o.form) {
-        if let Some(d) = disc_seen.get(&o.handle) {
+        if let Some(d) = disc_seen.get(&o.handle).filter(|d| o.call > **d) {
           if !received_values(r).is_empty() {
             fire(
-              format!("{}:{}:value-after-disconnected", fl, o.form),
+              format!("{}:{}:value-after-disconnected{}", o.sfl, o.form, tn(o)),
               format!("{} returned {} after {} had observed Disconnected at event {} (event {})", o.handle, r, o.handle, d, at),
             );
           } else if r.starts_with("err:empty") || r.starts_with("err:timeout") {
             fire(
-              format!("{}:{}:not-disconnected-after-disconnected", fl, o.form),
+              format!("{}:{}:not-disconnected-after-disconnected{}", o.sfl, o.form, tn(o)),
               format!("{} returned {} after it had observed Disconnected at event {} (event {})", o.handle, r, d, at),
             );
           }
@@ -477,12 +535,15 @@ pub fn check(case: &Case, res: &RunResult, status: &str) -> Vec<(String, String)
         if r.starts_with("err:disconnected") {
           disc_seen.entry(o.handle.clone()).or_insert(at);
           // drain-then-Disconnected: every send that completed before this op was invoked must be received
-          if !spmc {
+          if !spmc && !rdv {
             for (v, (ri, sk)) in &sent_ok {
-              if *ri < o.call && !recv_by.contains_key(v) {
+              // still buffered when Disconnected was returned: sent before, and received (if ever) only by an
+              // operation invoked afterwards
+              let later_or_never = recv_by.get(v).map_or(true, |ks| ks.iter().all(|k| ops[*k].call > at));
+              if *ri < at && later_or_never {
                 fire(
-                  format!("{}:{}:disconnected-before-drain", fl, o.form),
-                  format!("{} returned Disconnected but value {} ({} ok at event {}) was never received (event {})", o.handle, v, ops[*sk].form, ri, at),
+                  format!("{}:{}:disconnected-before-drain{}", o.sfl, o.form, tn(o)),
+                  format!("{} returned Disconnected while value {} ({} ok at event {}) was still buffered (event {})", o.handle, v, ops[*sk].form, ri, at),
                 );
                 break;
               }
@@ -492,7 +553,7 @@ pub fn check(case: &Case, res: &RunResult, status: &str) -> Vec<(String, String)
         // sequential expectation when the op ran alone
         if o.isolated && o.all_senders_gone_at_call && !spmc && r.starts_with("err:empty") {
           fire(
-            format!("{}:{}:empty-after-all-senders-gone", fl, o.form),
+            format!("{}:{}:empty-after-all-senders-gone{}", o.sfl, o.form, tn(o)),
             format!("{} returned Empty although every sender was closed/dropped (event {})", o.handle, at),
           );
         }
@@ -503,7 +564,7 @@ pub fn check(case: &Case, res: &RunResult, status: &str) -> Vec<(String, String)
   for o in ops.iter().filter(|o| o.fut.is_some() && o.closed_at_call && o.polled_pending && o.ret.is_none()) {
     let suffix = if o.converted_after_close { "-after-conversion" } else { "" };
     fire(
-      format!("{}:{}:closed-handle-blocks{}", fl, o.form, suffix),
+      format!("{}:{}:closed-handle-blocks{}", o.sfl, o.form, suffix),
       format!("future {} ({} on {}) created after the handle's close() returned Pending", o.fut.as_deref().unwrap_or("?"), o.form, o.handle),
     );
   }
@@ -518,7 +579,7 @@ pub fn check(case: &Case, res: &RunResult, status: &str) -> Vec<(String, String)
         let dropped = ops.iter().any(|o| o.form == "recv_fut" && o.cancelled.is_some() && o.call < *ri);
         let shape = if timed { ":timed-recv-cancel-race" } else if dropped { ":dropped-recv-future-race" } else { "" };
         fire(
-          format!("{}:{}:ok-value-never-received{}", fl, s.form, shape),
+          format!("{}:{}:ok-value-never-received{}", s.sfl, s.form, shape),
           format!("{} of value {} returned ok (event {}) but no receive ever returned it", s.form, v, ri),
         );
       }
@@ -529,7 +590,8 @@ pub fn check(case: &Case, res: &RunResult, status: &str) -> Vec<(String, String)
   if status.starts_with("deadlock") {
     let unreceived: Vec<u32> = sent_ok.keys().filter(|v| !recv_by.contains_key(v)).copied().collect();
     let pend: Vec<&LOp> = ops.iter().filter(|o| o.ret.is_none() && o.fut.is_none()).collect();
-    let pending_batch_room: usize = pend.iter().filter(|o| is_send(&o.form) && o.form.contains("batch")).map(|o| o.vals.len()).sum();
+    let pending_batch_room: usize = pend.iter().filter(|o| is_send(&o.form) && o.form.contains("batch")).map(|o| o.vals.len()).sum::<usize>()
+      + ops.iter().filter(|o| o.form == "send_batch_fut" && o.ret.is_none() && o.polled_pending).map(|o| o.vals.len()).sum::<usize>();
     let senders_gone = gone(&hs, 's');
     let receivers_gone = gone(&hs, 'r');
     for o in &pend {
@@ -538,7 +600,7 @@ pub fn check(case: &Case, res: &RunResult, status: &str) -> Vec<(String, String)
       if o.closed_at_call {
         let suffix = if o.converted_after_close { "-after-conversion" } else { "" };
         fire(
-          format!("{}:{}:closed-handle-blocks{}", fl, o.form, suffix),
+          format!("{}:{}:closed-handle-blocks{}", o.sfl, o.form, suffix),
           format!("{} on {} after its close() never returned; {}", o.form, o.handle, extra),
         );
         continue;
@@ -546,12 +608,12 @@ pub fn check(case: &Case, res: &RunResult, status: &str) -> Vec<(String, String)
       if BLOCKING_RECV.contains(&o.form.as_str()) {
         if !spmc && !unreceived.is_empty() {
           fire(
-            format!("{}:{}:blocked-with-item-available", fl, o.form),
+            format!("{}:{}:blocked-with-item-available", o.sfl, o.form),
             format!("{} on {} never returned although value(s) {:?} were sent ok and never received; {}", o.form, o.handle, unreceived, extra),
           );
         } else if senders_gone {
           fire(
-            format!("{}:{}:blocked-after-all-senders-gone", fl, o.form),
+            format!("{}:{}:blocked-after-all-senders-gone{}", o.sfl, o.form, o.taint),
             format!("{} on {} never returned although every sender was closed/dropped; {}", o.form, o.handle, extra),
           );
         }
@@ -559,7 +621,7 @@ pub fn check(case: &Case, res: &RunResult, status: &str) -> Vec<(String, String)
       if BLOCKING_SEND.contains(&o.form.as_str()) {
         if receivers_gone && !spmc {
           fire(
-            format!("{}:{}:blocked-after-all-receivers-gone", fl, o.form),
+            format!("{}:{}:blocked-after-all-receivers-gone{}", o.sfl, o.form, o.taint),
             format!("{} on {} never returned although every receiver was closed/dropped; {}", o.form, o.handle, extra),
           );
         } else if let (Some(c), false, "send") = (cap, spmc, o.form.as_str()) {
@@ -567,13 +629,13 @@ pub fn check(case: &Case, res: &RunResult, status: &str) -> Vec<(String, String)
           let ub = unreceived.len() + pending_batch_room;
           if ub + 1 <= c && !oneshot {
             fire(
-              format!("{}:{}:blocked-with-space-available", fl, o.form),
+              format!("{}:{}:blocked-with-space-available", o.sfl, o.form),
               format!("{} on {} never returned although at most {} of {} slots are occupied; {}", o.form, o.handle, ub, c, extra),
             );
           }
         } else if rdv && pend.iter().any(|p| BLOCKING_RECV.contains(&p.form.as_str())) {
           fire(
-            format!("{}:{}:blocked-with-receiver-waiting", fl, o.form),
+            format!("{}:{}:blocked-with-receiver-waiting", o.sfl, o.form),
             format!("{} on {} and a blocking receive are both parked; {}", o.form, o.handle, extra),
           );
         }
@@ -608,9 +670,15 @@ pub fn check(case: &Case, res: &RunResult, status: &str) -> Vec<(String, String)
           let Some(o) = ops.iter().find(|o| o.fut.as_deref() == Some(op.arg(1)) && o.call < i && o.ret.map_or(true, |x| x > i) && o.cancelled.map_or(true, |x| x >= i)) else {
             continue;
           };
-          if !o.polled_pending {
+          if !o.first_pending.map_or(false, |fp| fp < i) || o.form.contains("batch") {
             continue;
           }
+          // batch send futures that were polled and did not complete may have pushed part of their batch
+          let partial: usize = ops
+            .iter()
+            .filter(|p| p.form == "send_batch_fut" && p.first_pending.map_or(false, |fp| fp < i) && p.ret.map_or(true, |x| x > i))
+            .map(|p| p.vals.len())
+            .sum();
           // state at event i
           let sent_now: Vec<u32> = sent_ok.iter().filter(|(_, (ri, _))| *ri < i).map(|(v, _)| *v).collect();
           let unrecv: Vec<u32> = sent_now
@@ -627,17 +695,17 @@ pub fn check(case: &Case, res: &RunResult, status: &str) -> Vec<(String, String)
               *w != "0" && ops.iter().any(|p| p.fut.as_deref() == Some(*n) && p.form.starts_with(&o.form[..4]) && p.call < i && p.ret.map_or(true, |x| x > i) && p.cancelled.map_or(true, |x| x > i))
             })
             .count();
-          if o.form.starts_with("recv") && !spmc && unrecv.len() > owed {
+          if o.form.starts_with("recv") && !spmc && !rdv && unrecv.len() > owed {
             fire(
-              format!("{}:{}:pending-enabled-not-woken{}", fl, o.form, shape),
+              format!("{}:{}:pending-enabled-not-woken{}", o.sfl, o.form, shape),
               format!("future {} ({} on {}) is Pending with 0 wakes while value(s) {:?} are available (event {})", op.arg(1), o.form, o.handle, unrecv, i),
             );
           }
           if o.form.starts_with("send") && !spmc {
             if let Some(c) = cap {
-              if unrecv.len() + 1 + owed <= c && !rdv {
+              if unrecv.len() + partial + 1 + owed <= c && !rdv {
                 fire(
-                  format!("{}:{}:pending-enabled-not-woken{}", fl, o.form, shape),
+                  format!("{}:{}:pending-enabled-not-woken{}", o.sfl, o.form, shape),
                   format!("future {} ({} on {}) is Pending with 0 wakes while only {} of {} slots are occupied (event {})", op.arg(1), o.form, o.handle, unrecv.len(), c, i),
                 );
               }
@@ -677,7 +745,9 @@ pub fn check(case: &Case, res: &RunResult, status: &str) -> Vec<(String, String)
     }
   }
   if status.starts_with("panic:") {
-    let site = ops.iter().filter(|o| o.ret.is_none() && o.fut.is_none()).map(|o| o.form.clone()).next().unwrap_or_else(|| "teardown".into());
+    let pend1 = ops.iter().find(|o| o.ret.is_none() && o.fut.is_none());
+    let site = pend1.map(|o| o.form.clone()).unwrap_or_else(|| "teardown".into());
+    let fl = pend1.map(|o| o.sfl.as_str()).unwrap_or(fl);
     let msg = status.splitn(3, ':').nth(2).unwrap_or("");
     let short: String = msg.chars().take(60).collect();
     fire(format!("{}:{}:panic:{}", fl, site, short), format!("operation panicked: {}", status));
